@@ -139,8 +139,8 @@ class C04(Prop):
                   'its tear-down attempt and the per-layer summaries and Total line must be present.')
     level_note = ('Per-test layer hooks that raise are out of scope here (C18). The console stream is assumed able to '
                   'encode what is printed (capture stream with backslashreplace).')
-    rule = ('Hypothesis worlds (0..4 layers, 1..2 modules, tests of 15 outcome kinds with 20 exception classes, '
-            'output actions incl. undecodable bytes, faulty layer hooks), options --buffer, -v 0..3, --repeat; procs '
+    rule = ('Hypothesis worlds (0..4 layers, 1..2 modules, tests of 15 outcome kinds with 30 exception classes incl. cyclic/unhashable/compile-error/group ones, '
+            'output actions incl. undecodable bytes, faulty layer hooks), options --buffer, -v 0..3, --repeat, 0..2 reporting flags (-c -p -1 --auto-progress --slow-test=0 --ndiff/--udiff/--cdiff -C); procs '
             'part adds NotImplementedError tear-downs and -j 2 so that tests run in child runners. Non-trivial = >=1 '
             'faulty test or layer hook and >=2 selected tests. Distinct by hash of (spec, options).')
     assumptions = ('KeyboardInterrupt is not generated (it is documented to end the run)',
